@@ -29,6 +29,8 @@ SHAPES = {
     'o2o_req_casc': ('o2o', True, True),
     'o2o_opt': ('o2o', False, False),
     'm2m': ('m2m', False, False),
+    'mix_req_nocasc': ('mix', True, False),
+    'mix_opt': ('mix', False, False),
 }
 
 # which category of disagreement belongs to which property
@@ -99,7 +101,10 @@ class World:
             _table_ = 'ta'
             id = PrimaryKey(int)
             v = Optional(int, lazy=lazy)
-            if rel == 'o2m':
+            if rel == 'mix':
+                ls = Set('B', reverse='as_', table='tl', column='b_id', **setkw)     # declared first: cleared first by delete
+                bs = Set('B', reverse='a', cascade_delete=casc, **setkw) if casc != breq else Set('B', reverse='a', **setkw)
+            elif rel == 'o2m':
                 bs = Set('B', cascade_delete=casc, **setkw) if casc != breq else Set('B', **setkw)
             elif rel == 'o2o':
                 b = Optional('B', cascade_delete=True) if casc else Optional('B')
@@ -110,12 +115,16 @@ class World:
             _table_ = 'tb'
             id = PrimaryKey(int)
             u = Optional(int, unique=True, lazy=lazy)
-            if rel in ('o2m', 'o2o'):
+            if rel == 'mix':
+                a = Required(A, column='a_id', reverse='bs') if breq else Optional(A, column='a_id', reverse='bs')
+                as_ = Set(A, column='a_id', reverse='ls', **setkw)
+            elif rel in ('o2m', 'o2o'):
                 a = Required(A, column='a_id') if breq else Optional(A, column='a_id')
             else:
                 as_ = Set(A, column='a_id', **setkw)
 
         self.A, self.B = A, B
+        self.links = rel in ('m2m', 'mix')
         db.bind('sqlite', path, create_db=True)
         db.generate_mapping(create_tables=True)
         self.session = None
@@ -140,7 +149,7 @@ class World:
         self.db.disconnect()
         con = self.raw()
         con.execute('BEGIN')
-        if self.rel == 'm2m':
+        if self.links:
             con.execute('DELETE FROM tl')
         con.execute('DELETE FROM tb')
         con.execute('DELETE FROM ta')
@@ -165,12 +174,10 @@ class World:
         arows = con.execute('SELECT id FROM ta').fetchall()
         if self.rel == 'm2m':
             B = {k: {'ex': True, 'u': u or 0, 'a': 0} for k, u in con.execute('SELECT id, u FROM tb')}
-            L = set((a, b) for a, b in con.execute('SELECT a_id, b_id FROM tl'))
-            brows = con.execute('SELECT id, u FROM tb').fetchall()
         else:
             B = {k: {'ex': True, 'u': u or 0, 'a': a or 0} for k, u, a in con.execute('SELECT id, u, a_id FROM tb')}
-            L = set()
-            brows = con.execute('SELECT id, u FROM tb').fetchall()
+        L = set((a, b) for a, b in con.execute('SELECT a_id, b_id FROM tl')) if self.links else set()
+        brows = con.execute('SELECT id, u FROM tb').fetchall()
         problems = []
         if len(arows) != len(A) or len(brows) != len(B):
             problems.append('duplicate primary key rows')
@@ -426,6 +433,27 @@ class Adapter:
         else:
             a.bs.remove([b])
 
+    def do_LAdd(self, ev):
+        a = self.obj('A', ev['k'])
+        b = self.obj('B', ev['x'])
+        if self.rng.randrange(2):
+            a.ls.add(b)
+        else:
+            b.as_.add(a)
+
+    def do_LRemove(self, ev):
+        a = self.obj('A', ev['k'])
+        b = self.obj('B', ev['x'])
+        if self.rng.randrange(2):
+            a.ls.remove(b)
+        else:
+            b.as_.remove(a)
+
+    def do_LColl(self, ev):
+        a = self.obj('A', ev['k'])
+        items = list(a.ls) if self.rng.randrange(2) else a.ls.select()[:]
+        return self.reg_all('B', items)
+
     def do_CollClear(self, ev):
         a = self.obj('A', ev['k'])
         if self.rng.randrange(2):
@@ -600,7 +628,7 @@ class Adapter:
                 refs[k] = a.id if a is not None else 0
                 if a is not None and aobjs.get(a.id) is not a:
                     raise Mismatch('identity', '%s: B[%d].a is not the session\'s object A[%d]' % (why, k, a.id))
-            if w.rel == 'o2m':
+            if w.rel in ('o2m', 'mix'):
                 fwd = set((a, b.id) for a, o in aobjs.items() for b in o.bs)
             else:
                 fwd = set((a, o.b.id) for a, o in aobjs.items() if o.b is not None)
@@ -610,6 +638,13 @@ class Adapter:
             for k in bobjs:
                 if refs[k] != want['B'][k]['a']:
                     raise Mismatch(cat, '%s: B[%d].a is %r, specification %r' % (why, k, refs[k], want['B'][k]['a']))
+            if w.rel == 'mix':
+                lf = set((a, b.id) for a, o in aobjs.items() for b in o.ls)
+                lb = set((a.id, b) for b, o in bobjs.items() for a in o.as_)
+                if lf != lb:
+                    raise Mismatch('ends', '%s: A.ls says %r, B.as_ says %r' % (why, sorted(lf), sorted(lb)))
+                if lf != want['L']:
+                    raise Mismatch(cat, '%s: links in session %r, specification %r' % (why, sorted(lf), sorted(want['L'])))
         # key lookups (C11: each unique value maps to the object that holds it)
         for k, o in bobjs.items():
             if o.u is not None and w.B.get(u=o.u) is not o:
@@ -638,7 +673,7 @@ class Graph:
         return acts
 
 
-READ_OPS = ('GetV', 'GetU', 'GetRef', 'Coll', 'CollB', 'Find', 'FindU', 'SelAll')
+READ_OPS = ('GetV', 'GetU', 'GetRef', 'Coll', 'CollB', 'LColl', 'Find', 'FindU', 'SelAll')
 END_OPS = ('Commit', 'End', 'EndExc', 'Rollback')
 
 
